@@ -251,12 +251,20 @@ class Refresher(Module):
             # ZQCS Timer ---------------------------------------------------------------------------
             zqcs_timer = RefreshTimer(int(clk_freq/zqcs_freq))
             self.submodules.zqcs_timer = zqcs_timer
-            self.comb += wants_zqcs.eq(zqcs_timer.done)
 
             # ZQCS Executer ------------------------------------------------------------------------
             zqcs_executer = ZQCSExecuter(cmd, settings.timing.tRP, settings.timing.tZQCS)
             self.submodules.zqs_executer = zqcs_executer
             self.comb += zqcs_timer.wait.eq(~zqcs_executer.done)
+
+            # ZQCS Request (zqcs_timer.done is a single-cycle pulse: keep it until the calibration starts).
+            self.sync += [
+                If(zqcs_timer.done,
+                    wants_zqcs.eq(1)
+                ).Elif(zqcs_executer.start,
+                    wants_zqcs.eq(0)
+                )
+            ]
 
         # Refresh FSM ------------------------------------------------------------------------------
         self.submodules.fsm = fsm = FSM()
